@@ -568,6 +568,21 @@ def _try_inline(st: ast.stmt, cands, caller, ccls, caller_locals) -> tuple[str, 
     return name, out
 
 
+# ------------------------------------------------------------------------------------------------ N15
+class _Suppress(ast.NodeTransformer):
+    """`with suppress(E1, E2): body`  ->  `try: body  except (E1, E2): pass`  (contextlib.suppress)."""
+
+    def visit_With(self, node: ast.With) -> ast.AST:
+        self.generic_visit(node)
+        if len(node.items) == 1 and node.items[0].optional_vars is None and isinstance(node.items[0].context_expr, ast.Call):
+            c = node.items[0].context_expr
+            if ast.unparse(c.func) in ("suppress", "contextlib.suppress") and c.args and not c.keywords and all(_chain(a) for a in c.args):
+                typ = c.args[0] if len(c.args) == 1 else ast.copy_location(ast.Tuple(elts=list(c.args), ctx=ast.Load()), c)
+                h = ast.copy_location(ast.ExceptHandler(type=typ, name=None, body=[ast.copy_location(ast.Pass(), node)]), node)
+                return ast.copy_location(ast.Try(body=node.body, handlers=[h], orelse=[], finalbody=[]), node)
+        return node
+
+
 # ------------------------------------------------------------------------------------------------ N12
 class _LenTests(ast.NodeTransformer):
     """In test position (if / while / conditional expression / operand of not, and, or there): `len(x) == 0` is `not x`, `len(x) > 0`, `len(x) != 0`,
@@ -726,6 +741,7 @@ def normalise(trees: dict[str, ast.Module]) -> None:
     _split_handlers(trees)
     for t in trees.values():
         _inline_constants(t, known)
+        _Suppress().visit(t)
         _LenTests().visit(t)
         _Exprs().visit(t)
         _WhileTrue().visit(t)
